@@ -28,7 +28,12 @@ type c11pCase struct {
 	Ops   []c11pOp `json:"ops"`
 }
 
-func runC11P(t *testing.T, c c11pCase) kit.Outcome {
+func runC11P(t *testing.T, c c11pCase) kit.Outcome { return runC11PL(t, c, false) }
+
+// runC11PL: with live set the run also judges C10 - a release is always offered to the caller at the head of the
+// line; if that caller's request is one the partitioned strategy admits in the state the release leaves behind (total
+// below the limit, or its own partition below its share), it must not be found still waiting afterwards.
+func runC11PL(t *testing.T, c c11pCase, live bool) kit.Outcome {
 	return bubble(t, func() kit.Outcome {
 		t0 := time.Now()
 		st, err := buildStack(c.Stack, nil, nil, t0)
@@ -104,6 +109,23 @@ func runC11P(t *testing.T, c c11pCase) kit.Outcome {
 					rest = append(rest, cl)
 				}
 			}
+			if live && op.K == "release" && len(line) > 0 && !line[idx[0]].Done {
+				hd := line[idx[0]] // the caller that was first in line when the token came back: the one it was offered to
+				bi := st.binOf(hd.Key)
+				room := st.busy() < st.limit()
+				why := fmt.Sprintf("total busy %d is below the limit %d", st.busy(), st.limit())
+				if !room && bi >= 0 {
+					if share := dlShare(st.limit(), stackBinFracs[hd.Key]); st.binBusy(bi) < share {
+						room, why = true, fmt.Sprintf("its partition %q holds %d of its share of %d", hd.Key, st.binBusy(bi), share)
+					}
+				}
+				if bi == -2 {
+					room = false // the predicate strategy admits no request that matches no partition
+				}
+				if room {
+					return fail(kit.Viol(kind+":handoff-lost", "op %d: a token was released while caller %d (key %q) was first in line (%s order); it is still waiting although %s; line (oldest first): %s", i, hd.ID, hd.Key, ordName(lifo), why, lineStr(line)))
+				}
+			}
 			if op.K == "release" && len(rest) == len(line) && len(line) > 1 {
 				skipped = true // a release that served nobody although several wait: the head's partition had no room
 			}
@@ -126,25 +148,39 @@ func lineStr(line []*vtCaller) string {
 	return s
 }
 
+var genC11P = func(t *rapid.T) c11pCase {
+	var c c11pCase
+	c.Stack = rapid.SampledFrom(c11tStacks).Draw(t, "stack")
+	c.Stack.Strategy = rapid.SampledFrom([]string{"lookup", "predicate"}).Draw(t, "strategy")
+	c.Stack.Limit, c.Stack.Backlog, c.Stack.TimeoutMs = rapid.IntRange(2, 6).Draw(t, "limit"), 8, 1000
+	op := rapid.Custom(func(t *rapid.T) c11pOp {
+		if rapid.IntRange(0, 2).Draw(t, "k") > 0 {
+			return c11pOp{K: "arrive", Key: rapid.SampledFrom([]string{"a", "a", "b", "b", "zz"}).Draw(t, "key")}
+		}
+		return c11pOp{K: "release", Idx: rapid.IntRange(0, 20).Draw(t, "idx"), Outcome: rapid.IntRange(0, 2).Draw(t, "outcome")}
+	})
+	c.Ops = rapid.SliceOfN(op, 4, 40).Draw(t, "ops")
+	return c
+}
+
 func TestC11_partitioned(t *testing.T) {
 	kit.RequireMode(t, "std")
 	kit.Check(t, kit.Prop[c11pCase]{
 		ID: "C11", Quick: 3000, Thor: 300_000,
 		Rule: "queue limiter (FIFO / LIFO / default) over a DefaultLimiter with a lookup or predicate partition strategy (limit 2-6), callers of partitions a / b / unknown, arrivals and releases at one virtual instant; a waiter handed a token must have been first in the configured order; non-trivial = a hand-off happened and some release served nobody although several callers waited",
-		Gen: func(t *rapid.T) c11pCase {
-			var c c11pCase
-			c.Stack = rapid.SampledFrom(c11tStacks).Draw(t, "stack")
-			c.Stack.Strategy = rapid.SampledFrom([]string{"lookup", "predicate"}).Draw(t, "strategy")
-			c.Stack.Limit, c.Stack.Backlog, c.Stack.TimeoutMs = rapid.IntRange(2, 6).Draw(t, "limit"), 8, 1000
-			op := rapid.Custom(func(t *rapid.T) c11pOp {
-				if rapid.IntRange(0, 2).Draw(t, "k") > 0 {
-					return c11pOp{K: "arrive", Key: rapid.SampledFrom([]string{"a", "a", "b", "b", "zz"}).Draw(t, "key")}
-				}
-				return c11pOp{K: "release", Idx: rapid.IntRange(0, 20).Draw(t, "idx"), Outcome: rapid.IntRange(0, 2).Draw(t, "outcome")}
-			})
-			c.Ops = rapid.SliceOfN(op, 4, 40).Draw(t, "ops")
-			return c
-		},
-		Run: runC11P,
+		Gen:  genC11P,
+		Run:  runC11P,
+	})
+}
+
+// TestC10_partitioned: the C11 scenario judged for C10 - a released token reaches the caller at the head of the line
+// whenever the partitioned strategy has room for that caller's request.
+func TestC10_partitioned(t *testing.T) {
+	kit.RequireMode(t, "std")
+	kit.Check(t, kit.Prop[c11pCase]{
+		ID: "C10", Quick: 3000, Thor: 300_000,
+		Rule: "queue limiter (FIFO / LIFO / default) over a DefaultLimiter with a lookup or predicate partition strategy (limit 2-6), callers of partitions a / b / unknown, arrivals and releases at one virtual instant; after every release the caller at the head of the line is not left waiting if the strategy admits its request in the state the release leaves behind (total below the limit or its partition below its share); non-trivial = a hand-off happened and some release served nobody although several callers waited",
+		Gen:  genC11P,
+		Run:  func(t *testing.T, c c11pCase) kit.Outcome { return runC11PL(t, c, true) },
 	})
 }
